@@ -80,38 +80,45 @@ func poolDrivers(n int) []*Driver {
 
 // Batch answers many lines, in order; large batches are sharded over a pool of driver processes.
 func (d *Driver) Batch(lines []string) ([]string, error) {
-	const shardMin = 4000
-	n := runtime.NumCPU() / 2
-	if n > 8 {
-		n = 8
+	n := runtime.NumCPU() * 3 / 4
+	if n > 12 {
+		n = 12
 	}
-	if len(lines) < 2*shardMin || n < 2 || os.Getenv("VERIF_DRIVER_POOL") == "0" {
+	if len(lines) < 2000 || n < 2 || os.Getenv("VERIF_DRIVER_POOL") == "0" {
 		return d.batch1(lines)
 	}
-	if k := len(lines) / shardMin; k < n {
+	if k := len(lines) / 256; k < n {
 		n = k
 	}
 	ds := append([]*Driver{d}, poolDrivers(n-1)...)
 	n = len(ds)
 	res := make([]string, len(lines))
 	errs := make([]error, n)
+	// chunks of 256 lines handed out on demand: cases differ in cost by orders of magnitude
+	const chunk = 256
+	next := make(chan int, (len(lines)+chunk-1)/chunk)
+	for lo := 0; lo < len(lines); lo += chunk {
+		next <- lo
+	}
+	close(next)
 	var wg sync.WaitGroup
-	per := (len(lines) + n - 1) / n
 	for i := 0; i < n; i++ {
-		lo, hi := i*per, (i+1)*per
-		if lo >= len(lines) {
-			break
-		}
-		if hi > len(lines) {
-			hi = len(lines)
-		}
 		wg.Add(1)
-		go func(i, lo, hi int) {
+		go func(i int) {
 			defer wg.Done()
-			out, err := ds[i].batch1(lines[lo:hi])
-			copy(res[lo:hi], out)
-			errs[i] = err
-		}(i, lo, hi)
+			for lo := range next {
+				hi := lo + chunk
+				if hi > len(lines) {
+					hi = len(lines)
+				}
+				out, err := ds[i].batch1(lines[lo:hi])
+				copy(res[lo:hi], out)
+				if err != nil {
+					errs[i] = err
+					return
+				}
+			}
+		}(i)
 	}
 	wg.Wait()
 	for _, e := range errs {
